@@ -229,7 +229,7 @@ _OR = 'the trace of the same program on the other build (results as names/tags, 
 
 
 def make_snap(params, part, nparts):
-    def h(L: int, k: int, m: int, w: int, f: int):
+    def h(L: int, k: int, m: int, w: int, f: int = 0):
         cL = pick(L, 3) + 2
         ck = pick(k, 3) + 1
         assume(ck < cL)
